@@ -69,7 +69,7 @@ func Of(s *ast.Schema, o Options) Set {
 			out[fmt.Sprintf("enumvalue %s.%s", name, ev.Name)] = true
 			if o.Deprecations {
 				if d := ev.Directives.ForName("deprecated"); d != nil {
-					out[fmt.Sprintf("deprecated %s.%s %s", name, ev.Name, printArgs(d.Arguments))] = true
+					out[fmt.Sprintf("deprecated %s.%s %s", name, ev.Name, deprReason(d))] = true
 				}
 			}
 			if o.Descriptions && ev.Description != "" {
@@ -96,7 +96,7 @@ func Of(s *ast.Schema, o Options) Set {
 			}
 			if o.Deprecations {
 				if d := f.Directives.ForName("deprecated"); d != nil {
-					out[fmt.Sprintf("deprecated %s.%s %s", name, f.Name, printArgs(d.Arguments))] = true
+					out[fmt.Sprintf("deprecated %s.%s %s", name, f.Name, deprReason(d))] = true
 				}
 			}
 			if o.Descriptions && f.Description != "" {
@@ -135,6 +135,17 @@ func Of(s *ast.Schema, o Options) Set {
 		}
 	}
 	return out
+}
+
+// deprReason renders the effective reason of @deprecated (the directive's default applies when absent).
+func deprReason(d *ast.Directive) string {
+	if a := d.Arguments.ForName("reason"); a != nil {
+		if a.Value.Kind == ast.NullValue {
+			return "reason:null"
+		}
+		return fmt.Sprintf("reason:%q", a.Value.Raw)
+	}
+	return fmt.Sprintf("reason:%q", "No longer supported")
 }
 
 func printArgs(al ast.ArgumentList) string {
